@@ -42,6 +42,26 @@ CLAIMED = {
     },
 }
 
+CLAIMED["C10"] = {
+    "text": "Proof that batch_evaluate_function returns, in every one of "
+    "its six branches (pool / no pool x vectorised+chunked / vectorised / "
+    "pointwise), for every chunk size and pool size, an array of len(x) "
+    "whose i-th entry is the pointwise value at x[i]; that the three "
+    "module-level wrappers call the model's own method; that "
+    "Model.batch_evaluate_* evaluate at the (unit-hypercube-mapped) points "
+    "and add exactly len(x) to the evaluation counter once; and that "
+    "configure_pool establishes the invariant that keeps "
+    "np.array_split(x, None) unreachable (this obligation failed on the "
+    "pinned tree: fixed, see known_findings.txt).",
+    "note": "Assumed: the user's function satisfies the vectorised contract "
+    "(func(s)[j] = func1(s[j]), len preserved, also for empty s); "
+    "Pool.map is order preserving; the worker's global _model is the same "
+    "model (fork); np.array_split / np.concatenate library contracts "
+    "(pieces partition the input in order); the vectorised_* properties "
+    "are treated as boolean attributes. Real fork-pool scheduling is inside "
+    "the assumed Pool.map contract.",
+}
+
 NA = {
     "C06": "statistical calibration over seeds: no pre/post-condition on a "
     "function expresses a distributional claim and no deductive back end "
